@@ -21,4 +21,5 @@ for id in "$@"; do
   nv=$(grep -c '^VIOLATION' "$O/$id.log")
   res="$res $id:exit=$rc,viol=$nv"
 done
+mkdir -p /tmp/em_logs; for f in "$O"/*.log; do cp "$f" /tmp/em_logs/$N-$(basename $f); done
 echo "$N: demo_without=$a demo_with=$b tests=[$t] checks:$res"
